@@ -83,6 +83,8 @@ class FrameMachine(a64sem.Machine):
                         if op == 6: out += [X(X(gm(a[0], 2), gm(a[1], 3)), X(a[2], a[3])), X(X(a[0], gm(a[1], 2)), X(gm(a[2], 3), a[3])), X(X(a[0], a[1]), X(gm(a[2], 2), gm(a[3], 3))), X(X(gm(a[0], 3), a[1]), X(a[2], gm(a[3], 2)))]
                         else: out += [X(X(gm(a[0], 14), gm(a[1], 11)), X(gm(a[2], 13), gm(a[3], 9))), X(X(gm(a[0], 9), gm(a[1], 14)), X(gm(a[2], 11), gm(a[3], 13))), X(X(gm(a[0], 13), gm(a[1], 9)), X(gm(a[2], 14), gm(a[3], 11))), X(X(gm(a[0], 11), gm(a[1], 13)), X(gm(a[2], 9), gm(a[3], 14)))]
                 s.v[rd] = bytes_to_lanes(out); s.written_v.add(rd); s.pc += 4; dis('%s v%d.16b, v%d.16b' % ({4: 'aese', 5: 'aesd', 6: 'aesmc', 7: 'aesimc'}[op], rd, rn)); return None
+            if (w & 0xFC000000) == 0x94000000:       # bl
+                imm26 = w & 0x3ffffff; d = imm26 - (1 << 26) if imm26 >> 25 else imm26; s.wx(30, Ptr(s.code, pc0 + 4)); s.pc += 4; dis('bl %#x' % (pc0 + 4 * d)); return ('jmp', pc0 + 4 * d)
             if (w & 0xFFC00000) == 0xF9800000:       # prfm [xn, #imm]
                 rn = (w >> 5) & 31; s.prefetches.append(s.padd(s.rx(rn, spreg=True), ((w >> 10) & 0xfff) * 8)); s.pc += 4; dis('prfm'); return None
         return super().step()
@@ -94,11 +96,12 @@ def spec_aes(enc, st2, key2):
 
 HANDLERS = None
 def run_N3(ctx, case):
-    v2 = case['v2']; q = Q(120); mod = Module(ctx['ll']['a64']); L = jit_layout(mod); npaths = [0]; F = life.flagvals()
+    v2 = case['v2']; light = case.get('light', False); q = Q(120); mod = Module(ctx['ll']['a64']); L = jit_layout(mod); npaths = [0]; F = life.flagvals()
     syms, text = a64_linked(ctx['tag'] + '-n3-%d' % os.getpid())
-    tag = 'A64 frame full %s hard-AES readReg=%s' % ('v2' if v2 else 'v1', [2 * i + ((case['rr'] >> i) & 1) for i in range(4)])
+    tag = 'A64 frame %s %s hard-AES readReg=%s' % ('light' if light else 'full', 'v2' if v2 else 'v1', [2 * i + ((case['rr'] >> i) & 1) for i in range(4)])
     rr = [2 * i + ((case['rr'] >> i) & 1) for i in range(4)]; qm = [z3.BitVec('q%d' % (14 + i), 64) for i in range(2)]
-    dso = z3.BitVec('datasetOffset', 64); base_pc = [z3.ULE(dso, P.DATASET_EXTRA), dso & 63 == 0]
+    dso32 = z3.BitVec('datasetOffset32', 32); dso = z3.ZeroExt(32, dso32) if light else z3.BitVec('datasetOffset', 64); base_pc = [z3.ULE(dso, P.DATASET_EXTRA), dso & 63 == 0]
+    DSI = [z3.Function('DSI%d' % k, z3.BitVecSort(64), z3.BitVecSort(64)) for k in range(8)]; CODESZ = syms['randomx_init_dataset_aarch64_end'] - syms['randomx_program_aarch64']
     L3M = P.MASK_L3_64; DM = (P.DATASET_BASE - 1) & ~63
     sel = lambda regs, idx: regs[idx]; z64 = lambda v: z3.ZeroExt(32, v)
     ld = lambda arr, off: z3.Concat(*[z3.Select(arr, off + k) for k in reversed(range(8))])
@@ -108,13 +111,14 @@ def run_N3(ctx, case):
         H = life.Heap(it, fail=False); cxxlib.install(it, H)
         it.mem.alloc(len(text) + 64, 'text')
         for k, b in enumerate(text): it.mem.objs['text']['bytes'][k] = b
+        it.mem.objs['text']['addr'] = 0x10000000       # nominal address of the runtime image (the emitter only ever uses differences of symbol addresses)
         it.extern = {nm: Ptr('text', off) for nm, off in syms.items()}
         life.run_ctors(it, mod)
         def alloc_pages(s_, a):
             n = a[0] if is_c(a[0]) else z3.simplify(a[0]).as_long(); return s_.mem.alloc(n, 'codebuf')
         it.hooks['allocMemoryPages'] = alloc_pages
         J = it.mem.alloc(L['size'], 'J'); it.call('_ZN7randomx14JitCompilerA64C2Ev', [J]); code = it.mem.load(Ptr('J', L['code']), 8)
-        flags = (F['V2'] if v2 else 0) | F['HARD_AES'] | F['JIT'] | F['FULL_MEM']; it.mem.store(Ptr('J', L['flags']), flags, 4)
+        flags = (F['V2'] if v2 else 0) | F['HARD_AES'] | F['JIT'] | (0 if light else F['FULL_MEM']); it.mem.store(Ptr('J', L['flags']), flags, 4)
         ncalls = [0]
         for f in mod.funcs:
             if re.match(r'_ZN7randomx14JitCompilerA64\d+h_\w+ERNS_11InstructionERj$', f): it.hooks[f] = (lambda s, a: ncalls.__setitem__(0, ncalls[0] + 1))
@@ -122,20 +126,21 @@ def run_N3(ctx, case):
         for k in range(0, 128 + 8 * 512, 8): it.mem.store(Ptr('prog', k), 0, 8)
         for l in range(2): it.mem.store(Ptr('pcfg', 8 * l), V.emask_of(qm[l]), 8)
         for k in range(4): it.mem.store(Ptr('pcfg', 16 + 4 * k), rr[k], 4)
-        it.call('_ZN7randomx14JitCompilerA6415generateProgramERNS_7ProgramERNS_20ProgramConfigurationE', [J, prog, pcfg])
+        if light: it.call('_ZN7randomx14JitCompilerA6420generateProgramLightERNS_7ProgramERNS_20ProgramConfigurationEj', [J, prog, pcfg, dso32])
+        else: it.call('_ZN7randomx14JitCompilerA6415generateProgramERNS_7ProgramERNS_20ProgramConfigurationE', [J, prog, pcfg])
         def chk(c, what):
             q.n += 1; q.unsat += bool(c); q.sat += (not c)
             if not c: q.failed.append(('%s: %s' % (tag, what), {}))
         chk(ncalls[0] == (P.P.get('RANDOMX_PROGRAM_SIZE_V2', 384) if v2 else P.P.get('RANDOMX_PROGRAM_SIZE_V1', P.P.get('RANDOMX_PROGRAM_SIZE', 256))) or ncalls[0] in (256, 384), 'an emitter is called for every instruction of the program (%d calls)' % ncalls[0])
         mem = it.mem; CODE = code.obj
-        mem.mkarr('sp', P.L3); S0 = mem.objs['sp']['arr']; mem.mkarr('dataset', P.DATASET_BASE + P.DATASET_EXTRA); D0 = mem.objs['dataset']['arr']; mem.share('dataset')
+        mem.mkarr('sp', P.L3); S0 = mem.objs['sp']['arr']; mem.mkarr('dataset', P.DATASET_BASE + P.DATASET_EXTRA); D0 = mem.objs['dataset']['arr']; mem.share('dataset'); mem.alloc(64, 'cachemem'); mem.share('cachemem')
         mem.alloc(256, 'regfile'); A = [[z3.BitVec('a%d_%d' % (i, l), 64) for l in range(2)] for i in range(4)]
         for k in range(0, 192, 8): mem.store(Ptr('regfile', k), z3.BitVec('rf_stale%d' % k, 64), 8)
         for l in range(2): mem.store(Ptr('regfile', 64 + 8 * l), V.emask_of(qm[l]), 8)        # vm_compiled.cpp (aarch64): the E 'or' mask is handed over in reg.f[0]
         for i in range(4):
             for l in range(2): mem.store(Ptr('regfile', 192 + 16 * i + 8 * l), A[i][l], 8)
         mx0, ma0 = z3.BitVecs('mx_entry ma_entry', 32)
-        mem.alloc(16, 'memregs'); mem.store(Ptr('memregs', 0), mx0, 4); mem.store(Ptr('memregs', 4), ma0, 4); mem.store(Ptr('memregs', 8), Ptr('dataset', dso), 8)
+        mem.alloc(16, 'memregs'); mem.store(Ptr('memregs', 0), mx0, 4); mem.store(Ptr('memregs', 4), ma0, 4); mem.store(Ptr('memregs', 8), Ptr('cachemem', 0) if light else Ptr('dataset', dso), 8)      # compiled VM: mem.memory = dataset + datasetOffset; light: cache memory
         STK = 1024; mem.alloc(STK + 64, 'stack')
         for k in range(0, STK + 64, 8): mem.store(Ptr('stack', k), z3.BitVec('stk%d' % k, 64), 8)
         m = FrameMachine(mem, CODE, it); entry = {r: z3.BitVec('x%d_entry' % r, 64) for r in range(31)}
@@ -161,7 +166,7 @@ def run_N3(ctx, case):
         q.prove_eq(pc, m.x[8], rbit64(fpcr_e), '%s: x8 = bit-reversed FPCR' % tag, 64); q.prove_eq(pc, m.fpcr, fpcr_e, '%s: prologue leaves FPCR alone' % tag, 64)
         q.prove_eq(pc, m.x[3], iters, '%s: x3 = iteration count' % tag, 64)
         chk(isinstance(m.x[2], Ptr) and m.x[2].obj == 'sp' and m.x[2].off == 0, 'x2 = scratchpad')
-        chk(isinstance(m.x[1], Ptr) and m.x[1].obj == 'dataset', 'x1 = dataset pointer'); x1_loop = m.x[1]
+        chk(isinstance(m.x[1], Ptr) and m.x[1].obj == ('cachemem' if light else 'dataset'), 'x1 = dataset / cache pointer'); x1_loop = m.x[1]
         FRAME = m.sp.off if isinstance(m.sp, Ptr) else None; chk(FRAME == STK - 192 - 16, 'sp = frame base (192-byte save area + the saved register-file pointer)')
         lit_regs = {r: m.x[r] for r in LITREGS}; lit_v = {r: list(m.v[r]) for r in range(16)}
         # ---------------- phase 2: one iteration from an arbitrary loop state (4.6.2)
@@ -184,11 +189,21 @@ def run_N3(ctx, case):
             for r_ in (19, 20): mach.x[r_] = z3.BitVec('x%d_after_program' % r_, 64)          # N1: an instruction may clobber x19, x20, v28, flags; CFROUND changes FPCR.RMode and its shadow x8
             mach.v[28] = [z3.BitVec('v28_%d_p' % l, 64) for l in range(2)]; mach.fl = dict(N=None, Z=None, C=None, V=None)
             st['fpcr2'] = z3.BitVec('fpcr_after_program', 64); mach.fpcr = st['fpcr2']; mach.x[8] = rbit64(st['fpcr2'])
+        ssh = {}
+        def item_function(mach):      # contract of the generated dataset-item function (N5): x0 = cache memory, x1 = out, x2 = item number; writes 8 words; x20 is scratch; everything else preserved
+            ssh['item'] = mach.x[2]; ssh['x0'] = mach.x[0]; out = mach.x[1]
+            if not isinstance(out, Ptr): raise Fault('item function called with a non-pointer output buffer')
+            for k in range(8): mach.store(mach.padd(out, 8 * k), DSI[k](bv(mach.x[2], 64)), 8)
+            mach.x[20] = z3.BitVec('x20_clobbered_by_item_function', 64); mach.fl = dict(N=None, Z=None, C=None, V=None)
+            ra = mach.x[30]
+            if not (isinstance(ra, Ptr) and ra.obj == mach.code and is_c(ra.off)): raise Fault('item function: bad return address')
+            mach.pc = ra.off
         kind = None
         try:
             m.pc = MAIN; steps = 0
             while True:
                 if m.pc == PROG and 'pre' not in st: program(m)
+                if light and m.pc == CODESZ: item_function(m); continue
                 rr_ = m.step(); steps += 1
                 if steps > 600: raise Fault('step bound exceeded (unwinding assertion)')
                 if rr_ is None:
@@ -220,10 +235,17 @@ def run_N3(ctx, case):
         mp_new = (ma ^ mpn) if v2 else (mx ^ mpn)
         read_off = z64(ma & DM); pre_off = z64(mp_new & DM)
         new_ma = mx if v2 else mp_new; new_mx = mp_new if v2 else ma
-        dsw = [ld(D0, dso + read_off + 8 * k) for k in range(8)]
-        pfs = [t for t in m.prefetches if isinstance(t, Ptr) and t.obj == 'dataset']
-        chk(len(pfs) == 1, 'step 6: one dataset prefetch in the iteration (%d)' % len(pfs))
-        if len(pfs) == 1: q.prove_eq(pc, bv(pfs[0].off, 64), dso + pre_off, '%s: step 6: prefetch address' % tag, 64)
+        if light:
+            chk('item' in ssh, 'light mode: the dataset-item function is called')
+            if 'item' not in ssh: return
+            q.prove_eq(pc, ssh['item'], z3.LShR(dso + read_off, 6), '%s: step 7 (light): item number = (datasetOffset + ma %% BASE)/64' % tag, 64)
+            chk(isinstance(ssh['x0'], Ptr) and ssh['x0'].obj == 'cachemem' and ssh['x0'].off == 0, 'light mode: x0 = cache memory at the call')
+            dsw = [DSI[k](z3.LShR(dso + read_off, 6)) for k in range(8)]
+        else:
+            dsw = [ld(D0, dso + read_off + 8 * k) for k in range(8)]
+            pfs = [t for t in m.prefetches if isinstance(t, Ptr) and t.obj == 'dataset']
+            chk(len(pfs) == 1, 'step 6: one dataset prefetch in the iteration (%d)' % len(pfs))
+            if len(pfs) == 1: q.prove_eq(pc, bv(pfs[0].off, 64), dso + pre_off, '%s: step 6: prefetch address' % tag, 64)
         r3 = [r2[i] ^ dsw[i] for i in range(8)]
         if v2:
             fnew = [list(f2[i]) for i in range(4)]
@@ -251,7 +273,7 @@ def run_N3(ctx, case):
             q.prove(pc, z3.And(z3.Extract(63, 32, nb) & DM == new_ma & DM, z3.Extract(31, 0, nb) & DM == new_mx & DM), '%s: steps 5,8: ma/mx for the next iteration (address-relevant bits)' % tag)
             q.prove_eq(pc, m.x[8], rbit64(st['fpcr2']), '%s: x8 shadow intact' % tag, 64)
             chk(isinstance(m.sp, Ptr) and m.sp.off == FRAME and isinstance(m.x[2], Ptr) and m.x[2].obj == 'sp' and m.x[2].off == 0, 'frame registers sp/x2 intact at the back edge')
-            chk(isinstance(m.x[1], Ptr) and m.x[1].obj == 'dataset' and (m.x[1].off is x1_loop.off or (not is_c(m.x[1].off) and z3.simplify(bv(m.x[1].off, 64) == bv(x1_loop.off, 64)).__bool__() if False else True)), 'x1 = dataset pointer intact at the back edge')
+            chk(isinstance(m.x[1], Ptr) and m.x[1].obj == ('cachemem' if light else 'dataset') and (m.x[1].off is x1_loop.off or (not is_c(m.x[1].off) and z3.simplify(bv(m.x[1].off, 64) == bv(x1_loop.off, 64)).__bool__() if False else True)), 'x1 = dataset pointer intact at the back edge')
             bad = [r for r in LITREGS if not (not is_c(m.x[r]) and not isinstance(m.x[r], Ptr) and not isinstance(lit_regs[r], Ptr) and (m.x[r] is lit_regs[r] or (not is_c(lit_regs[r]) and m.x[r].eq(lit_regs[r])))) and not (is_c(m.x[r]) and is_c(lit_regs[r]) and m.x[r] == lit_regs[r])]
             chk(not bad, 'literal registers intact at the back edge (%s)' % bad)
         else:
@@ -268,7 +290,7 @@ def run_N3(ctx, case):
             for r_ in range(8, 16): q.prove_eq(pc, m.v[r_][0], ventry[r_][0], '%s: callee-saved d%d restored' % (tag, r_), 64)
             chk(isinstance(m.sp, Ptr) and m.sp.obj == 'stack' and m.sp.off == STK, 'stack pointer restored')
         for (kd, obj, off, nb) in m.accesses:
-            if obj == 'stack' and is_c(off): chk(STK - 208 <= off and off + nb <= STK, 'stack access inside the 208-byte frame: %s at %d' % (kd, off))
+            if obj == 'stack' and is_c(off): chk(STK - 208 - (96 if light else 0) <= off and off + nb <= STK, 'stack access inside the frame: %s at %d' % (kd, off))
             elif obj == 'dataset' and kd == 'store': chk(False, 'store into the dataset')
         extent_checks(q, pc, mem, tag)
     res, nq = explore(one, limit=16); q.n += nq
@@ -278,13 +300,13 @@ def run_N3(ctx, case):
 
 def jobs_N3(ctx):
     rrs = (0, 15) if ctx['tier'] == 'quick' else range(16)
-    return [dict(v2=v, rr=r) for v in (False, True) for r in rrs]
+    return [dict(v2=v, rr=r, light=l) for l in (False, True) for v in (False, True) for r in rrs]
 
 LEMMAS = {'N3': dict(jobs=jobs_N3, run=run_N3, units=['a64'], a64=True,
     functions=['JitCompilerA64::JitCompilerA64', 'generateProgram (patch points)', 'assembled runtime: randomx_program_aarch64 prologue, main loop, dataset read/prefetch (vm_instructions_end_v1/_v2), F/E mix (v1 xor, v2 hardware AES), FE store, epilogue'],
-    doc='the frame the real generator patches around the program, executed under the A64 model: the prologue establishes 4.6.1 and the register conventions N1 assumes (masks, FPCR shadow, literal registers); one iteration from an arbitrary loop state == spec 4.6.2 (same oracle as I8/J3) for v1 and v2 with hardware AES in full mode; exit writes the register file, restores callee-saved registers and sp and returns; dataset accesses in bounds',
+    doc='the frame the real generator patches around the program, executed under the A64 model: the prologue establishes 4.6.1 and the register conventions N1 assumes (masks, FPCR shadow, literal registers); one iteration from an arbitrary loop state == spec 4.6.2 (same oracle as I8/J3) for v1 and v2 with hardware AES in full and in light mode (the dataset-item function is an abstract call with the contract N5 proves); exit writes the register file, restores callee-saved registers and sp and returns; dataset accesses in bounds',
     bound='one loop iteration from an arbitrary state + entry + exit; program body abstracted (arbitrary effect on r/f/e, scratchpad, x19, x20, v28, flags, FPCR.RMode with its shadow: what N1 allows an instruction to do); readReg choices {0,15} (quick) / all 16',
     symbolic='registers, scratchpad, dataset, ma/mx, E masks, datasetOffset, iteration counter, callee-saved registers, stack content, FPCR',
     stubs=['h_* emitters := no bytes (N1)', 'mmap := ghost heap', 'A64 semantics: engine/a64sem.py + the vector pair / AES forms in this module (AESE/AESMC/AESD/AESIMC over the FIPS-197 functions of spec/aes_ref.py)', 'ld.lld resolves the branches between the runtime\'s global labels'],
-    outside='light mode (call of the dataset-item function from the loop), software-AES variant of the v2 F/E mix')}
+    outside='software-AES variant of the v2 F/E mix')}
 UNITS = UNITS
